@@ -165,6 +165,8 @@ func posRef(hops []Hop, i int) int {
 		return RefDyn0 + h.Target
 	case HopSelf:
 		return RefEntry
+	case HopReward:
+		return posRef(hops, i-1) // the contract that made the hop is re-entered
 	}
 	return h.Target
 }
@@ -187,7 +189,7 @@ func fixFlags(hops []Hop, leaf int) {
 		case HopDyn, HopSelf:
 			hops[i].Flags |= req
 			req |= int(callflag.AllowCall)
-		case HopNative:
+		case HopNative, HopReward:
 			hops[i].Flags = int(callflag.All)
 			req = int(callflag.All)
 		}
@@ -219,9 +221,16 @@ func genChain(t *rapid.T, maxDepth int) ([]Hop, int, int) {
 	leaf := LeafSyscall
 	switch story {
 	case biasEntry:
-		if rapid.IntRange(0, 3).Draw(t, "reenter") == 0 {
+		if r := rapid.IntRange(0, 5).Draw(t, "reenter"); r <= 1 {
 			x := target()
 			hops = []Hop{{Kind: HopCall, Target: x, Flags: 15}, {Kind: HopNative, Target: x, Flags: 15}}
+			if r == 1 {
+				// ... re-entered through the callback of its GAS reward, which GAS calls on behalf of NEO
+				hops[1] = Hop{Kind: HopReward, Flags: 15}
+				if maxDepth >= 3 && rapid.Bool().Draw(t, "deeper") {
+					hops = append(hops, Hop{Kind: HopCall, Target: target(), Flags: pal()})
+				}
+			}
 			break
 		}
 		if maxDepth >= 3 && rapid.IntRange(0, 2).Draw(t, "prefix") == 0 {
@@ -267,6 +276,10 @@ func genChain(t *rapid.T, maxDepth int) ([]Hop, int, int) {
 			if k == HopNative && (ro || len(destroyed) > 0) {
 				k = HopCall
 			}
+			if k == HopCall && !ro && len(destroyed) == 0 && i > 0 && (hops[i-1].Kind == HopCall || hops[i-1].Kind == HopNative) &&
+				hops[i-1].Mut == nil && !rewardedAlready(hops) && rapid.IntRange(0, 4).Draw(t, "reward") == 0 {
+				k = HopReward
+			}
 			h := Hop{Kind: k, Flags: pal()}
 			switch k {
 			case HopDyn:
@@ -274,6 +287,7 @@ func genChain(t *rapid.T, maxDepth int) ([]Hop, int, int) {
 				h.Target = rapid.IntRange(0, 1).Draw(t, "dynv")
 			case HopSelf:
 				ro = true
+			case HopReward:
 			default:
 				h.Target = target()
 				for destroyed[h.Target] {
@@ -329,7 +343,7 @@ func genAcct(t *rapid.T, signers []Signer, hops []Hop, leaf int, story int) Acct
 	cur, calling := posRef(hops, n), RefZero
 	if n > 0 {
 		calling = posRef(hops, n-1)
-		if hops[n-1].Kind == HopNative {
+		if hops[n-1].Kind == HopNative || hops[n-1].Kind == HopReward {
 			calling = RefGAS
 		}
 	}
@@ -434,7 +448,7 @@ func validCond(c Cond) error {
 
 func validCase(c Case) error {
 	for i, h := range c.Hops {
-		if h.Kind < HopCall || h.Kind > HopSelf {
+		if h.Kind < HopCall || h.Kind > HopReward {
 			return fmt.Errorf("malformed case: hop %d has kind %d", i, h.Kind)
 		}
 	}
@@ -491,6 +505,8 @@ func (w *world) entryScript(c Case) []byte {
 			path = append(path, []any{skDyn, w.dyn[h.Target], h.Flags})
 		case HopSelf:
 			path = append(path, []any{skSelf, 0, h.Flags})
+		case HopReward:
+			path = append(path, []any{skReward, 0, 0})
 		}
 		if h.Mut != nil {
 			if h.Mut.Op == MutDestroy {
@@ -676,10 +692,10 @@ func evalCell(c Case, o *cls, honourKnown bool) error {
 	viaNote, mutated := false, false
 	kinds := ""
 	for _, h := range c.Hops {
-		if h.Kind == HopNative {
+		if h.Kind == HopNative || h.Kind == HopReward {
 			viaNote = true
 		}
-		kinds += string("cdns"[h.Kind])
+		kinds += string("cdnsr"[h.Kind])
 		if h.Mut != nil {
 			mutated = true
 			kinds += map[string]string{MutUpdate: "U", MutDestroy: "X"}[h.Mut.Op]
@@ -822,4 +838,13 @@ func evalCell(c Case, o *cls, honourKnown bool) error {
 func init() {
 	vt.PropertyID = "C15"
 	vt.Register("cells", 1.0, genCell, checkCell)
+}
+
+func rewardedAlready(hops []Hop) bool {
+	for _, h := range hops {
+		if h.Kind == HopReward {
+			return true
+		}
+	}
+	return false
 }
